@@ -6,7 +6,7 @@ from bsa import props, rules  # noqa
 from bsa.core import RULES
 
 NOT_CLAIMED = {}  # property -> reason (filled when a property is deliberately not claimed)
-claimed = sorted({p for r in RULES.values() for p in r.props})
+claimed = sorted(p for p in {p for r in RULES.values() for p in r.props} if p in props.READY)
 titles = {json.loads(l)["id"]: json.loads(l)["title"] for l in open("/verif/properties.jsonl")}
 checks = []
 for p in sorted(props.PROPS):
